@@ -24,7 +24,7 @@ BUDGET = {
     "quick": {"worlds": 150, "runs": 100, "wall_cap": 300, "world_wall": 90},
     "thorough": {"worlds": 4000, "runs": 120, "wall_cap": 2400, "world_wall": 120},
 }
-REQUIRED_PROBES = ["unary", "sstream", "cstream", "bidi", "void_output", "foreign_request", "form_none", "form_dict",
+REQUIRED_PROBES = ["binary_caller_metadata", "unary", "sstream", "cstream", "bidi", "void_output", "foreign_request", "form_none", "form_dict",
                    "form_msg", "retried_identical_payload", "concurrent_callers", "crossing_replies", "stream_cut",
                    "second_client_same_process", "keyword_rpc", "async_stream", "presence_only_request", "cancelled_mid_call", "threaded_callers", "threads_crossing_replies", "stream_start_fault_retried_sync", "stream_start_fault_surfaced_async", "reply_over_4MiB_on_own_channel"]
 ASSUMPTIONS = ["client-streaming and bidi calls are not driven through retried attempts (a consumed request iterator "
@@ -152,6 +152,7 @@ def gen_op(spec, rng, codec, fs, s, m, k, oid, client):
         non = [c for c in engine.ALL_CODES if not pol or c not in pol["codes"]]
         script.append({"code": rng.choice(non), "lat": lat()})
         op["server"] = script
+        _binary_metadata(op)
         return op
     fl = lat()
     if T is not None:
@@ -170,7 +171,18 @@ def gen_op(spec, rng, codec, fs, s, m, k, oid, client):
         if client == "async":
             op["think"] = rng.choice([0.0, 0.0, 0.003])
     op["server"] = script
+    _binary_metadata(op)
     return op
+
+
+def _binary_metadata(op):
+    """Caller behaviour: per-call metadata with a BINARY entry (gRPC `-bin` keys carry arbitrary bytes, e.g. a serialized
+    trace context).  Decided by a PRNG derived from the finished op."""
+    import random
+    from .. import rng as rng_mod
+    r = random.Random(int(rng_mod.digest(op)[:12], 16))
+    if op["kind"] in ("unary", "sstream") and r.random() < 0.12:
+        op["call"]["metadata"] = [["x-caller-tag", "t1"], ["x-trace-bin", {"__b": r.choice(["fffe00e9", "80", "00ff10", "c328"])}]]
 
 
 def server_factory(run):
@@ -318,6 +330,11 @@ def judge_op(spec, codec, scenario, op, evs, probes):
                          f"(form={op.get('form')}): got {str(g)[:200]!r} expected {str(x)[:200]!r}")
         if a["n"] > 1:
             _bump(probes, "retried_identical_payload")
+        for kx, vx in (op.get("call") or {}).get("metadata") or []:
+            want_v = vx["__b"] if isinstance(vx, dict) else vx
+            _bump(probes, "binary_caller_metadata" if isinstance(vx, dict) else "text_caller_metadata")
+            if [kx, want_v] not in [list(x) for x in a["md"]]:
+                return V("caller_metadata", f"attempt {a['n']}: the caller's metadata entry {kx!r} did not arrive unchanged (got {[x for x in a['md'] if x[0] == kx]})")
     # ---- outcome
     if outcome["k"] == "cancelled" and (k in ("unary", "cstream") or not attempts or attempts[-1]["n"] not in servers
                                         or final is None or final.get("code") or final.get("retry_deadline")):
